@@ -1,7 +1,8 @@
 """C10 — compiled kernels never touch memory outside their arrays.
 The cases of every property that owns modelled kernels are re-run with bounds checking (NUMBA_BOUNDSCHECK=1) and in
 interpreted mode (USE_NUMBA=false): an IndexError on a valid input is a violation; the model's `.error (oob …)` must
-coincide with it (model checked accessors = the code's subscripts, tied by Gen/KernelShape)."""
+coincide with it (model checked accessors = the code's subscripts, tied by Gen/KernelShape; the tests that dominate each
+subscript, tied by Gen/KernelPaths)."""
 from checks.harness import meta
 
 PROPERTY = "C10"
@@ -13,7 +14,9 @@ EXHAUSTIVE = {"quick": False, "thorough": False}
 TECHNIQUE = ("Lean 4: per kernel family, `no_oob_*` corollaries of the owning property's `= .ok` refinement theorems (models read and "
              "write arrays only through checked accessors) + `access_sites_covered_*`: kernel-checked equality of the regenerated "
              "loop-guard / subscript table of every modelled @exetera_njit kernel with the table the model was written against + "
-             "`kernel_inventory_complete` + bounds-checked (NUMBA_BOUNDSCHECK=1) and interpreted (USE_NUMBA=false) differential runs "
+             "`access_paths_covered_*`: the same for the regenerated PATH CONDITION of every subscript occurrence (enclosing loop "
+             "guards, `if` / `elif` tests, negated `else` branches and early exits, `and` / `or` operands to the left) + "
+             "`kernel_inventory_complete`, `kernel_paths_sites_match_shape` + bounds-checked (NUMBA_BOUNDSCHECK=1) and interpreted (USE_NUMBA=false) differential runs "
              "of the owning properties' cases")
 LEVEL_TEXT = ("Proof, for the models' access sets, of 64 of the 69 compiled kernels in 11 families: the eight streamed join generators "
               "(every chunk size >= 1); ordered_map_valid_stream / _indexed_stream with their partial kernels, next_map_subchunk, "
@@ -31,26 +34,39 @@ LEVEL_TEXT = ("Proof, for the models' access sets, of 64 of the 69 compiled kern
               "theorem, that for every site the model run is not `.error (.oob site)`. Buffer statements for ALL arguments: a checked "
               "write is refused exactly when the position is not below the buffer size (push_oob_iff, pushV_oob_iff, setE_oob_iff), and no "
               "normally returning call of ordered_map_valid_indexed_partial / _apply_spans_concat_2 leaves more elements in a result "
-              "buffer than it has slots, whatever the ratio of output to buffer size. The loop guards and subscripts of all 64 kernels "
+              "buffer than it has slots, whatever the ratio of output to buffer size (also safe_map_indexed_step_bounded for the two "
+              "result arrays safe_map_indexed_values allocates itself; numeric_bool_transform_oob_of_short_elements: a result array "
+              "shorter than the row count IS the model's out-of-bounds write). The loop guards and subscripts of all 64 kernels "
               "are regenerated from the source on every run and proved equal to the tables the models were written against "
-              "(access_sites_covered_<family>, 11 theorems), and every compiled kernel of the source is in a table or in the explicit "
-              "not-modelled list (kernel_inventory_complete). Partial (`_partial` theorems, hypotheses inherited from the owners): CSV "
+              "(access_sites_covered_<family>, 11 theorems), and so is, for every occurrence of every subscript, its path condition: "
+              "the ordered list of enclosing loop guards, `if` / `elif` tests, negated `else` branches, negated early exits "
+              "(`if ...: break | continue | return | raise`) and short-circuit operands under which it executes "
+              "(access_paths_covered_<family>, 11 theorems over Gen/KernelPaths.lean; kernel_paths_sites_match_shape: both generated "
+              "tables list the same subscripts) - dropping, weakening or moving a test that dominates a subscript breaks the build. "
+              "Every compiled kernel of the source is in a table or in the explicit not-modelled list (kernel_inventory_complete). "
+              "The models check EVERY subscript of the modelled kernels, including the column subscript of column_offsets[col_idx] / "
+              "column_inds[col_idx, .] in the five import transforms (in range because the importer is called with an element of "
+              "index_map), elements[row_idx] / validity[row_idx] of numeric_bool_transform (capacities are parameters; the caller "
+              "allocates written_row_count) and i_result / v_result of safe_map_indexed_values. Partial (`_partial` theorems, hypotheses inherited from the owners): CSV "
               "driver without buffer regrowth; indexed unique without trailing NULs (NC14a); group-by with a faithful stacking cast "
               "(D20). Partial by nature: what a stray write would do to the heap "
               "is not modelled.")
-LEVEL_NOTE = ("Trusted: Lean kernel; tools/translate_kernels.py (AST extraction of loop guards and subscripts of the @exetera_njit "
-              "functions; `if` tests that guard a subscript are NOT extracted - their removal is caught by the correspondence, where the "
-              "model has the branch, not by the site tables); the hand-written models (validated by the differential runs under "
+LEVEL_NOTE = ("Trusted: Lean kernel; tools/translate_kernels.py (AST extraction, per @exetera_njit function, of loop guards, subscripts "
+              "and the syntactic path condition of every subscript occurrence; a path condition is the text of the tests passed on "
+              "the way, not an invariant: that the model's accessor is safe UNDER these tests is what the `no_oob_*` theorems prove "
+              "about the model, and that the model has the same tests is pinned by the tables and validated by the differential "
+              "runs; a test whose removal changes no behaviour on valid inputs - e.g. `if j < len(span1)` in "
+              "_get_spans_for_2_fields_by_spans - still breaks access_paths_covered_spans and is reported, without a failing "
+              "input); the hand-written models (validated by the differential runs under "
               "NUMBA_BOUNDSCHECK=1 and USE_NUMBA=false, where numba / numpy raise IndexError on any out-of-range scalar access). "
               "The bounds-checked / interpreted re-runs of this check take the cases of C03, C04, C05, C06, C08, C09, C14, C16, C17; the "
               "kernels owned by C07 and C19 run bounds-checked in those properties' own thorough tiers. "
               "Differential runs only: the 5 kernels without a model (ordered_left_map_result_size, "
               "ordered_outer_map_result_size_both_unique, ordered_inner_map_left_unique_partial, ordered_get_last_as_filter, "
               "streaming_sort_partial - none has a caller in the library); the "
-              "buffer-full early return and regrowth of fast_csv_reader; subscripts the models do not check: the column subscript of "
-              "column_offsets[i_c] / column_inds[i_c, .] in the five import transforms, elements[row_idx] / validity[row_idx] of "
-              "numeric_bool_transform, i_result / v_result of safe_map_indexed_values (all sized by the kernel or its only caller at "
-              "the loop bound; listed in Model/KernelSites*.lean).")
+              "buffer-full early return and regrowth of fast_csv_reader. The `.oob` branches of the column subscript (col_idx >= number "
+              "of columns) are exercised by Lean examples only: the JIT-compiled kernels cannot be run on such an input without "
+              "undefined behaviour, so no differential case has it.")
 RULE = ("cases of the owning properties' generators (valid inputs only), a seeded sample per property, each executed under "
         "NUMBA_BOUNDSCHECK=1 and USE_NUMBA=false; non-trivial/distinct as defined by the owning harness")
 ASSUMPTIONS = ["NUMBA_BOUNDSCHECK=1 makes numba raise IndexError on out-of-range indexing; interpreted numpy raises IndexError on "
